@@ -1,5 +1,7 @@
+pub mod misc;
 pub mod packed;
 pub mod prefilter;
+pub mod purity;
 pub mod repr;
 pub mod semantic;
 pub mod stream;
@@ -23,6 +25,11 @@ pub fn all() -> Vec<&'static PropDef> {
         &stream::C07,
         &stream::C08,
         &stream::C18,
+        &misc::C12,
+        &misc::C13,
+        &purity::C17,
+        &misc::C19,
+        &misc::C20,
     ]
 }
 
